@@ -178,6 +178,12 @@ def directed(run, prop, tier, seed):
                 (f"*=0x008000\n.macro lp() {{\nhere:\n.dw here\n}}\nlp()\nlp()\n", b"\x00\x80\x02\x80"),
                 (f"*=0x008000\n.macro rec(n) {{\n.db n\n.if n {{\nrec(n - 1)\n}}\n}}\nrec({c})\n", bytes(range(c, -1, -1))),
                 (f"*=0x008000\n.macro rep(n, code) {{\n.for i := 0, n {{\n{{{{code}}}}\n.db i\n}}\n}}\nrep({c}, {{\n.db {a}\n}})\n", b"".join(bytes([a, i]) for i in range(c))),
+                # a code-block argument spliced more than once is expanded at every splice: scopes, conditions, loops, applications inside it
+                ("*=0x008000\n.macro twice(code) {\n{{code}}\n{{code}}\n}\ntwice({\n{\nhere:\n.dw here\n}\n})\n", b"\x00\x80\x02\x80"),
+                (f"*=0x008000\n.macro t(code) {{\n{{\nsel := 1\n{{{{code}}}}\n}}\n{{\nsel := 0\n{{{{code}}}}\n}}\n}}\nt({{\n.if sel {{\n.db {a}\n}} else {{\n.db {b}\n}}\n}})\n", bytes([a, b])),
+                (f"*=0x008000\n.macro rep(n, code) {{\n.for i := 0, n {{\n{{{{code}}}}\n}}\n}}\nrep({c}, {{\n{{\nl:\n.dw l\n}}\n.db i\n}})\n", b"".join((0x8000 + 3 * i).to_bytes(2, "little") + bytes([i]) for i in range(c))),
+                (f"*=0x008000\n.macro p(v) {{\n.db v\n}}\n.macro twice(code) {{\n{{{{code}}}}\n.db 0xEE\n{{{{code}}}}\n}}\ntwice({{\np({a})\n.for j := 0, 2 {{\np(j)\n}}\n}})\n.db {b}\n", bytes([a, 0, 1, 0xEE, a, 0, 1, b])),
+                (f"*=0x008000\n.macro w(code) {{\n{{{{code}}}}\n}}\n.macro outer(v) {{\nw({{\n.if v {{\n.db v\n}} else {{\n.db {a}\n}}\n}})\n}}\nouter(0)\nouter(1)\nouter({c})\n", bytes([a, 1, c])),
                 ("*=0x008000\nnot_defined_macro(1)\n", None),
                 (f"*=0x008000\n.macro f(v, n) {{\n.db v, n\n}}\nn := {c}\nf({a})\n", None),
             ]
